@@ -63,16 +63,22 @@ Theorem C08_unpark_transfers :
 Proof. exact threads_unpark_transfers. Qed.
 Print Assumptions C08_unpark_transfers.
 
-(* D5: unpark of a thread blocked in join wakes it *)
-Theorem C08_refuted_D5 :
-  fin_of p_D5 = RunPanic PanicNotified /\
+(* D5 (repaired): unpark of a thread blocked in join stores a token instead of waking it *)
+Theorem C08_D5_repaired :
+  fin_of p_D5 = RunOk /\
        ref_can_deadlock (ref_outcomes false FUEL p_D5) = false /\
        existsb (fun o : routcome => match o with
                                     | OPanic => true
                                     | _ => false
                                     end) (ref_outcomes false FUEL p_D5) = false.
-Proof. exact D5_internal_panic. Qed.
-Print Assumptions C08_refuted_D5.
+Proof. exact D5_repaired. Qed.
+Print Assumptions C08_D5_repaired.
+
+(* D11 (repaired): the park token is not lost when the thread blocks on / is woken by a lock *)
+Theorem C08_D11_repaired :
+  fin_of p_D11 = RunOk /\ ref_can_deadlock (ref_outcomes false FUEL p_D11) = false.
+Proof. exact D11_repaired. Qed.
+Print Assumptions C08_D11_repaired.
 
 (* D14: park/unpark are not scheduling points *)
 Theorem C08_refuted_D14 :
